@@ -107,7 +107,7 @@ Lemma eval_win_interesting (rc:rcfg) (p:pass) (d:disk) (f:nat) sts sch x w cd c'
   interesting_d (upd d f c') = true.
 Proof.
   intros evs cands W NTH.
-  apply cround_win_success in W. destruct W as (R & Ex & T & _).
+  apply cround_win_success in W. destruct W as (R & Ex & T & _ & _ & NRn).
   assert (CA : cand_at cands w = cd).
   { unfold cand_at, cands. apply nth_error_nth.
     rewrite nth_error_map, NTH. reflexivity. }
@@ -117,7 +117,7 @@ Proof.
   unfold RunPass.eval in NTH. destruct (p_trans St p (getf d f) s) as [[res c1] s1].
   inversion NTH; subst; clear NTH.
   match goal with H : _ = cand_at cands w |- _ => rewrite <- H in * end. simpl in *. subst res.
-  unfold interesting_d, interesting. destruct (test (upd d f c')); simpl in *; [|discriminate].
+  unfold interesting_d, interesting. destruct (test (upd d f c')); simpl in *; try discriminate.
   subst. reflexivity.
 Qed.
 
